@@ -182,6 +182,19 @@ pub fn nodeid_cmd(t: &[&str]) -> String {
                 hx(format!("{n:#?}").as_bytes())
             )
         }
+        "eq" => {
+            // equality, equality with a raw array and hashing of two ids given as 32 bytes each
+            use std::hash::{Hash, Hasher};
+            let a = arr32(&unhx(t[1])).expect("32 bytes");
+            let b = arr32(&unhx(t[2])).expect("32 bytes");
+            let (na, nb) = (NodeId::new(&a), NodeId::new(&b));
+            let h = |n: &NodeId| {
+                let mut s = std::collections::hash_map::DefaultHasher::new();
+                n.hash(&mut s);
+                s.finish()
+            };
+            format!("eq={} eqraw={} hash={}", (na == nb && nb == na) as u8, (na == b && nb == a) as u8, (h(&na) == h(&nb)) as u8)
+        }
         "deser" => {
             // the string is delivered as a JSON string literal produced by serde_json itself
             let s = String::from_utf8_lossy(&unhx(t[1])).to_string();
@@ -199,8 +212,41 @@ pub fn nodeid_cmd(t: &[&str]) -> String {
     }
 }
 
+/// the same import from a buffer that starts at every offset 0..8 inside a larger allocation (a sub-slice of a
+/// frame, as callers have it): outcome, buffer afterwards and exported key must not depend on the alignment
+fn ckimport_at_offsets(which: &str, secret: &[u8]) -> bool {
+    let mut seen: Option<(bool, Vec<u8>, Vec<u8>)> = None;
+    for off in 0..9usize {
+        let mut frame = vec![0xAAu8; off + secret.len() + 11];
+        frame[off..off + secret.len()].copy_from_slice(secret);
+        let r = {
+            let b = &mut frame[off..off + secret.len()];
+            match which {
+                "secp" => CombinedKey::secp256k1_from_bytes(b),
+                _ => CombinedKey::ed25519_from_bytes(b),
+            }
+        };
+        let after = frame[off..off + secret.len()].to_vec();
+        let untouched = frame[..off].iter().all(|x| *x == 0xAA) && frame[off + secret.len()..].iter().all(|x| *x == 0xAA);
+        let obs = (r.is_ok() && untouched, after, r.map(|k| k.encode()).unwrap_or_default());
+        match &seen {
+            None => seen = Some(obs),
+            Some(first) => {
+                if *first != obs {
+                    return false;
+                }
+            }
+        }
+        if !untouched {
+            return false;
+        }
+    }
+    true
+}
+
 pub fn ckimport_cmd(t: &[&str]) -> String {
     let mut buf = unhx(t[1]);
+    let offs = ckimport_at_offsets(t[0], &buf) as u8;
     let r = match t[0] {
         "secp" => CombinedKey::secp256k1_from_bytes(&mut buf),
         "ed" => CombinedKey::ed25519_from_bytes(&mut buf),
@@ -218,13 +264,13 @@ pub fn ckimport_cmd(t: &[&str]) -> String {
                 Err(_) => "builderr".into(),
             };
             format!(
-                "ok buf={} export={} pub={} rec={}",
+                "ok buf={} export={} pub={} rec={} offs={offs}",
                 hx(&buf),
                 hx(&k.encode()),
                 hx(&k.public().encode()),
                 rec
             )
         }
-        Err(_) => format!("err buf={}", hx(&buf)),
+        Err(_) => format!("err buf={} offs={offs}", hx(&buf)),
     }
 }
